@@ -585,3 +585,23 @@ func (t *T) NWrites() int {
 
 	return len(t.Writes)
 }
+
+// Faults returns a copy of the per-kind counters of faults that fired.
+func (t *T) Faults() map[string]int {
+	t.mu.Lock()
+	defer t.mu.Unlock()
+	m := map[string]int{}
+	for k, v := range t.FaultFired {
+		m[k] = v
+	}
+
+	return m
+}
+
+// CloseCount is the number of Close calls so far.
+func (t *T) CloseCount() int {
+	t.mu.Lock()
+	defer t.mu.Unlock()
+
+	return t.CloseCalls
+}
